@@ -22,6 +22,9 @@ pub struct Src<const N: usize> {
     pub ended: bool,
     pub polls_after_end: u8,
     pub polls: u8,
+    /// honest but loose size hints (symbolic): lower bound = exact - slo, upper = exact + shi, shi == 2: None
+    pub slo: u8,
+    pub shi: u8,
 }
 impl<const N: usize> Src<N> {
     /// fully symbolic script
@@ -36,7 +39,9 @@ impl<const N: usize> Src<N> {
             items[i] = any();
             i += 1;
         }
-        Src { tags, items, pos: 0, ended: false, polls_after_end: 0, polls: 0 }
+        let (slo, shi): (u8, u8) = (any(), any());
+        assume(slo <= 1 && shi <= 2);
+        Src { tags, items, pos: 0, ended: false, polls_after_end: 0, polls: 0, slo, shi }
     }
     /// the items this source will ever produce (the reference subsequence), in order
     pub fn reference(&self) -> Seq {
@@ -112,10 +117,12 @@ impl<const N: usize> Pull for Src<N> {
             PullStep::Ended(Yes)
         }
     }
-    /// exact: the strongest honest hint, so the combinators' hint arithmetic is really exercised
+    /// any honest hint around the exact count (slo = shi = 0 is the exact one): the combinators' hint
+    /// arithmetic is exercised with exact, loose and unbounded upstream hints (seeded S-C11c needs an upstream
+    /// whose hint does not prove it empty although it produces nothing)
     fn size_hint(&self) -> (usize, Option<usize>) {
         let r = self.remaining_ready();
-        (r, Some(r))
+        (r.saturating_sub(self.slo as usize), if self.shi >= 2 { None } else { Some(r + self.shi as usize) })
     }
 }
 impl<const N: usize> FusedPull for Src<N> {}
@@ -136,7 +143,7 @@ impl<const N: usize> SrcU<N> {
         SrcU { tags: s.tags, items: s.items, pos: 0, polls_after_first_end: 0, seen_end: false }
     }
     pub fn reference(&self) -> Seq {
-        Src { tags: self.tags, items: self.items, pos: 0, ended: false, polls_after_end: 0, polls: 0 }.reference()
+        Src { tags: self.tags, items: self.items, pos: 0, ended: false, polls_after_end: 0, polls: 0, slo: 0, shi: 0 }.reference()
     }
 }
 impl<const N: usize> Pull for SrcU<N> {
